@@ -19,7 +19,7 @@ Proof. unfold A. now rewrite map_app, sum_app. Qed.
 Lemma F_ack_of n : F (ack_of n) = n.
 Proof. unfold ack_of. destruct (N.eqb_spec n 0) as [->|_]; cbn; lia. Qed.
 
-Lemma run_snoc fixed cfg ops x : run fixed cfg (ops ++ [x]) = step fixed cfg (run fixed cfg ops) x.
+Lemma run_snoc f1 f2 cfg ops x : run f1 f2 cfg (ops ++ [x]) = step f1 f2 cfg (run f1 f2 cfg ops) x.
 Proof. unfold run. now rewrite fold_left_app. Qed.
 
 (* ---------- conservation ---------- *)
@@ -29,14 +29,14 @@ Proof. unfold run. now rewrite fold_left_app. Qed.
 Definition conserved (s : st) (a : N) : Prop :=
   disc s = false -> a = F (out s) + delayed s + lost1 s + lost2 s /\ delayed s < 2 * window.
 
-Lemma step_disc_mono fixed cfg s x : disc s = true -> step fixed cfg s x = s.
+Lemma step_disc_mono f1 f2 cfg s x : disc s = true -> step f1 f2 cfg s x = s.
 Proof. unfold step. now intros ->. Qed.
 
-Lemma step_conserved fixed cfg s a x :
-  conserved s a -> conserved (step fixed cfg s x) (a + op_off x).
+Lemma step_conserved f1 f2 cfg s a x :
+  conserved s a -> conserved (step f1 f2 cfg s x) (a + op_off x).
 Proof.
   unfold conserved. intros H Hd'.
-  destruct (disc s) eqn:Hd; [rewrite (step_disc_mono _ _ _ _ Hd) in Hd'; congruence|].
+  destruct (disc s) eqn:Hd; [rewrite (step_disc_mono _ _ _ _ _ Hd) in Hd'; congruence|].
   destruct (H eq_refl) as [Ha Hlt]. clear H. revert Hd'.
   unfold step. rewrite Hd. unfold window in *.
   destruct x as [id off md|id off sg o|id o|off]; cbn [op_off].
@@ -52,8 +52,8 @@ Proof.
       rewrite F_app; cbn [F map sum bp_off]; unfold window in *; lia.
 Qed.
 
-Lemma run_conserved_from fixed cfg ops : forall s a,
-  conserved s a -> conserved (fold_left (step fixed cfg) ops s) (a + A ops).
+Lemma run_conserved_from f1 f2 cfg ops : forall s a,
+  conserved s a -> conserved (fold_left (step f1 f2 cfg) ops s) (a + A ops).
 Proof.
   induction ops as [|x r IH]; intros s a H; cbn [fold_left].
   - unfold A. cbn. now rewrite N.add_0_r.
@@ -61,7 +61,7 @@ Proof.
     apply IH. now apply step_conserved.
 Qed.
 
-Lemma run_conserved fixed cfg ops : conserved (run fixed cfg ops) (A ops).
+Lemma run_conserved f1 f2 cfg ops : conserved (run f1 f2 cfg ops) (A ops).
 Proof.
   unfold run. replace (A ops) with (0 + A ops) by lia. apply run_conserved_from.
   intros _. cbn. unfold window. lia.
@@ -69,7 +69,7 @@ Qed.
 
 (* the repaired model never drops anything *)
 Lemma spec_step_no_loss cfg s x :
-  lost1 s = 0 /\ lost2 s = 0 -> lost1 (step true cfg s x) = 0 /\ lost2 (step true cfg s x) = 0.
+  lost1 s = 0 /\ lost2 s = 0 -> lost1 (step true true cfg s x) = 0 /\ lost2 (step true true cfg s x) = 0.
 Proof.
   intros [H1 H2]. unfold step. destruct (disc s); [auto|].
   destruct x as [id off md|id off sg o|id o|off]; [now cbn| |destruct o; now cbn|].
@@ -90,45 +90,45 @@ Lemma spec_conserved cfg ops :
   A ops = F (out (spec_run cfg ops)) + delayed (spec_run cfg ops) /\ delayed (spec_run cfg ops) < 2 * window.
 Proof.
   intros Hd. destruct (spec_no_loss cfg ops) as [H1 H2]. unfold spec_run in *.
-  destruct (run_conserved true cfg ops Hd) as [Ha Hl]. rewrite H1, H2 in Ha. split; [lia|exact Hl].
+  destruct (run_conserved true true cfg ops Hd) as [Ha Hl]. rewrite H1, H2 in Ha. split; [lia|exact Hl].
 Qed.
 
 (* ---------- catch-up ---------- *)
 
 Definition carries_update (x : op) : bool := match x with Chat _ _ _ | Cmd _ _ _ _ => true | _ => false end.
 
-Lemma step_carrier_flushes fixed cfg s x :
-  carries_update x = true -> disc s = false -> delayed (step fixed cfg s x) = 0.
+Lemma step_carrier_flushes f1 f2 cfg s x :
+  carries_update x = true -> disc s = false -> delayed (step f1 f2 cfg s x) = 0.
 Proof.
   unfold step. intros Hc ->. destruct x as [id off md|id off sg o|id o|off]; try discriminate; [reflexivity|].
   destruct o; unfold modify, consume, emit;
     repeat match goal with |- context [if ?b then _ else _] => destruct b end; reflexivity.
 Qed.
 
-Lemma disc_run_prefix fixed cfg ops x :
-  disc (run fixed cfg (ops ++ [x])) = false -> disc (run fixed cfg ops) = false.
+Lemma disc_run_prefix f1 f2 cfg ops x :
+  disc (run f1 f2 cfg (ops ++ [x])) = false -> disc (run f1 f2 cfg ops) = false.
 Proof.
-  rewrite run_snoc. destruct (disc (run fixed cfg ops)) eqn:E; [|reflexivity].
-  now rewrite (step_disc_mono _ _ _ _ E), E.
+  rewrite run_snoc. destruct (disc (run f1 f2 cfg ops)) eqn:E; [|reflexivity].
+  now rewrite (step_disc_mono _ _ _ _ _ E), E.
 Qed.
 
-Lemma catch_up_gen fixed cfg ops x :
-  carries_update x = true -> disc (run fixed cfg (ops ++ [x])) = false ->
-  A (ops ++ [x]) = F (out (run fixed cfg (ops ++ [x]))) + lost1 (run fixed cfg (ops ++ [x])) + lost2 (run fixed cfg (ops ++ [x])).
+Lemma catch_up_gen f1 f2 cfg ops x :
+  carries_update x = true -> disc (run f1 f2 cfg (ops ++ [x])) = false ->
+  A (ops ++ [x]) = F (out (run f1 f2 cfg (ops ++ [x]))) + lost1 (run f1 f2 cfg (ops ++ [x])) + lost2 (run f1 f2 cfg (ops ++ [x])).
 Proof.
-  intros Hc Hd. destruct (run_conserved fixed cfg (ops ++ [x]) Hd) as [Ha _].
-  assert (H0 : delayed (run fixed cfg (ops ++ [x])) = 0).
-  { rewrite run_snoc. apply step_carrier_flushes; [exact Hc|]. now apply (disc_run_prefix _ _ _ x). }
+  intros Hc Hd. destruct (run_conserved f1 f2 cfg (ops ++ [x]) Hd) as [Ha _].
+  assert (H0 : delayed (run f1 f2 cfg (ops ++ [x])) = 0).
+  { rewrite run_snoc. apply step_carrier_flushes; [exact Hc|]. now apply (disc_run_prefix _ _ _ _ x). }
   lia.
 Qed.
 
 (* ---------- unsigned commands ---------- *)
 
-Lemma unsigned_neutral_lemma fixed cfg s id o :
-  delayed (step fixed cfg s (UCmd id o)) = delayed s /\
-  F (out (step fixed cfg s (UCmd id o))) = F (out s) /\
-  disc (step fixed cfg s (UCmd id o)) = disc s /\
-  lost1 (step fixed cfg s (UCmd id o)) = lost1 s /\ lost2 (step fixed cfg s (UCmd id o)) = lost2 s.
+Lemma unsigned_neutral_lemma f1 f2 cfg s id o :
+  delayed (step f1 f2 cfg s (UCmd id o)) = delayed s /\
+  F (out (step f1 f2 cfg s (UCmd id o))) = F (out s) /\
+  disc (step f1 f2 cfg s (UCmd id o)) = disc s /\
+  lost1 (step f1 f2 cfg s (UCmd id o)) = lost1 s /\ lost2 (step f1 f2 cfg s (UCmd id o)) = lost2 s.
 Proof.
   unfold step. destruct (disc s) eqn:Hd; [repeat split; auto|].
   destruct o; cbn [emit out delayed disc lost1 lost2]; rewrite ?F_app; cbn [F map sum bp_off];
@@ -172,9 +172,9 @@ Proof.
 Qed.
 
 (* a step appends packets tagged with nothing or with the op's own tag *)
-Lemma step_ids fixed cfg s x :
-  bp_ids (out (step fixed cfg s x)) = bp_ids (out s) \/
-  exists i, op_id x = Some i /\ bp_ids (out (step fixed cfg s x)) = bp_ids (out s) ++ [i].
+Lemma step_ids f1 f2 cfg s x :
+  bp_ids (out (step f1 f2 cfg s x)) = bp_ids (out s) \/
+  exists i, op_id x = Some i /\ bp_ids (out (step f1 f2 cfg s x)) = bp_ids (out s) ++ [i].
 Proof.
   unfold step. destruct (disc s); [now left|].
   destruct x as [id off md|id off sg o|id o|off].
@@ -187,18 +187,18 @@ Proof.
   - left. unfold step_ack, emit. destruct (_ <=? _); cbn [out]; rewrite bp_ids_app; cbn; now rewrite app_nil_r.
 Qed.
 
-Lemma run_order fixed cfg ops : subseq (bp_ids (out (run fixed cfg ops))) (op_ids ops) = true.
+Lemma run_order f1 f2 cfg ops : subseq (bp_ids (out (run f1 f2 cfg ops))) (op_ids ops) = true.
 Proof.
   induction ops as [|x r IH] using rev_ind; [reflexivity|].
   rewrite run_snoc, op_ids_app.
-  destruct (step_ids fixed cfg (run fixed cfg r) x) as [->|[i [Hi ->]]].
+  destruct (step_ids f1 f2 cfg (run f1 f2 cfg r) x) as [->|[i [Hi ->]]].
   - now apply subseq_app_r.
   - unfold op_ids at 2. cbn [map somes]. rewrite Hi. cbn [somes]. now apply subseq_snoc.
 Qed.
 
 (* ---------- out only grows ---------- *)
 
-Lemma step_out_grows fixed cfg s x : exists e, out (step fixed cfg s x) = out s ++ e.
+Lemma step_out_grows f1 f2 cfg s x : exists e, out (step f1 f2 cfg s x) = out s ++ e.
 Proof.
   unfold step. destruct (disc s); [exists []; now rewrite app_nil_r|].
   destruct x as [id off md|id off sg o|id o|off].
@@ -210,12 +210,12 @@ Proof.
   - unfold step_ack, emit. destruct (_ <=? _); eexists; reflexivity.
 Qed.
 
-Lemma run_out_grows fixed cfg l m : exists e, out (run fixed cfg (l ++ m)) = out (run fixed cfg l) ++ e.
+Lemma run_out_grows f1 f2 cfg l m : exists e, out (run f1 f2 cfg (l ++ m)) = out (run f1 f2 cfg l) ++ e.
 Proof.
   induction m as [|x r IH] using rev_ind.
   - exists []. now rewrite !app_nil_r.
   - rewrite app_assoc, run_snoc. destruct IH as [e He].
-    destruct (step_out_grows fixed cfg (run fixed cfg (l ++ r)) x) as [e' He'].
+    destruct (step_out_grows f1 f2 cfg (run f1 f2 cfg (l ++ r)) x) as [e' He'].
     exists (e ++ e'). now rewrite He', He, app_assoc.
 Qed.
 
@@ -267,7 +267,7 @@ Qed.
 (* one step of the repaired model: the packets it adds keep the backend caught up *)
 Lemma spec_step_caught cfg pre x rest s :
   NoDup (op_ids (pre ++ x :: rest)) -> disc s = false -> A pre = F (out s) + delayed s ->
-  exists e, out (step true cfg s x) = out s ++ e /\ caught_up (pre ++ x :: rest) (F (out s)) e = true.
+  exists e, out (step true true cfg s x) = out s ++ e /\ caught_up (pre ++ x :: rest) (F (out s)) e = true.
 Proof.
   intros Hnd Hd Ha.
   assert (Hfound : forall i, op_id x = Some i -> A_upto (pre ++ x :: rest) i = Some (A pre + op_off x)).
@@ -302,8 +302,8 @@ Lemma spec_caught_up cfg pre : forall rest,
 Proof.
   induction pre as [|x r IH] using rev_ind; intros rest Hnd Hd; [reflexivity|].
   unfold spec_run in *. rewrite run_snoc in *.
-  assert (Hd0 : disc (run true cfg r) = false).
-  { destruct (disc (run true cfg r)) eqn:E; [|reflexivity]. now rewrite (step_disc_mono _ _ _ _ E), E in Hd. }
+  assert (Hd0 : disc (run true true cfg r) = false).
+  { destruct (disc (run true true cfg r)) eqn:E; [|reflexivity]. now rewrite (step_disc_mono _ _ _ _ _ E), E in Hd. }
   rewrite <- app_assoc in *. cbn [app] in *.
   destruct (spec_conserved cfg r Hd0) as [Ha _]. unfold spec_run in Ha.
   destruct (spec_step_caught cfg r x rest _ Hnd Hd0 Ha) as [e [He Hc]].
@@ -323,7 +323,7 @@ Qed.
 
 (* ---------- today's code equals the repaired code on histories that hit neither defect ---------- *)
 
-Lemma lost1_mono fixed cfg s x : lost1 s <= lost1 (step fixed cfg s x).
+Lemma lost1_mono f1 f2 cfg s x : lost1 s <= lost1 (step f1 f2 cfg s x).
 Proof.
   unfold step. destruct (disc s); [lia|].
   destruct x as [id off md|id off sg o|id o|off]; [cbn; lia| |destruct o; cbn; lia|].
@@ -332,7 +332,7 @@ Proof.
   - unfold step_ack, emit. destruct (_ <=? _); cbn; lia.
 Qed.
 
-Lemma hit2_mono fixed cfg s x : hit2 s = true -> hit2 (step fixed cfg s x) = true.
+Lemma hit2_mono f1 f2 cfg s x : hit2 s = true -> hit2 (step f1 f2 cfg s x) = true.
 Proof.
   intros H. unfold step. destruct (disc s); [exact H|].
   destruct x as [id off md|id off sg o|id o|off]; [exact H| |destruct o; exact H|].
@@ -342,46 +342,50 @@ Proof.
 Qed.
 
 Lemma step_same cfg s x :
-  lost1 (step false cfg s x) = lost1 s -> hit2 (step false cfg s x) = hit2 s -> hit2 s = false ->
-  step false cfg s x = step true cfg s x.
+  hit2 (step true false cfg s x) = hit2 s -> hit2 s = false ->
+  step true false cfg s x = step true true cfg s x.
 Proof.
   unfold step. destruct (disc s) eqn:Hd; [reflexivity|].
   destruct x as [id off md|id off sg o|id o|off]; try reflexivity.
   destruct o; try reflexivity.
-  - unfold modify. destruct (sg && c_fka cfg); [reflexivity|]. cbn [hit2]. intros _ H1 H2. congruence.
-  - unfold consume. destruct sg; [|reflexivity]. destruct (c_fka cfg); [reflexivity|]. cbn [lost1].
-    intros H _ _. assert (H0 : off + delayed s = 0) by lia. rewrite H0. unfold emit, ack_of. cbn.
-    rewrite app_nil_r, N.add_0_r, Hd. reflexivity.
-  - unfold consume. destruct sg; [|reflexivity]. destruct (c_fka cfg); [reflexivity|]. cbn [lost1].
-    intros H _ _. assert (H0 : off + delayed s = 0) by lia. rewrite H0. unfold emit, ack_of. cbn.
-    rewrite app_nil_r, N.add_0_r, Hd. reflexivity.
+  unfold modify. destruct (sg && c_fka cfg); [reflexivity|]. cbn [hit2]. intros H1 H2. congruence.
 Qed.
 
 Lemma impl_eq_spec_lemma cfg ops :
-  lost1 (impl_run cfg ops) = 0 -> hit2 (impl_run cfg ops) = false -> impl_run cfg ops = spec_run cfg ops.
+  hit2 (impl_run cfg ops) = false -> impl_run cfg ops = spec_run cfg ops.
 Proof.
   unfold impl_run, spec_run. induction ops as [|x r IH] using rev_ind; [reflexivity|].
-  rewrite !run_snoc. intros H1 H2.
-  pose proof (lost1_mono false cfg (run false cfg r) x) as Hm.
-  assert (H1r : lost1 (run false cfg r) = 0) by lia.
-  assert (H2r : hit2 (run false cfg r) = false).
-  { destruct (hit2 (run false cfg r)) eqn:E; [|reflexivity]. now rewrite (hit2_mono _ _ _ _ E) in H2. }
-  rewrite <- (IH H1r H2r). apply step_same; [lia|congruence|exact H2r].
+  rewrite !run_snoc. intros H2.
+  assert (H2r : hit2 (run true false cfg r) = false).
+  { destruct (hit2 (run true false cfg r)) eqn:E; [|reflexivity]. now rewrite (hit2_mono _ _ _ _ _ E) in H2. }
+  rewrite <- (IH H2r). apply step_same; [congruence|exact H2r].
+Qed.
+
+(* since the C21-1 repair nothing is dropped on that path any more *)
+Lemma fix1_no_loss1 f2 cfg ops : lost1 (run true f2 cfg ops) = 0.
+Proof.
+  unfold run. assert (H : lost1 init = 0) by reflexivity. revert H. generalize init.
+  induction ops as [|x r IH]; intros s H; cbn [fold_left]; [exact H|]. apply IH.
+  unfold step. destruct (disc s); [exact H|].
+  destruct x as [id off md|id off sg o|id o|off]; [exact H| |destruct o; exact H|].
+  - destruct o; unfold modify, consume, emit;
+      repeat match goal with |- context [if ?b then _ else _] => destruct b end; cbn; auto.
+  - unfold step_ack, emit. destruct (_ <=? _); exact H.
 Qed.
 
 (* ---------- the two recorded findings refute conservation and catch-up ---------- *)
 
 Definition cfg_off : config := mkCfg false false.
 
-(* C21-1: three held acknowledgements, then a signed command (offset 2) the event denies, then chat *)
+(* C21-1 (repaired by f72099c; stated about the pre-fix model variant): three held acknowledgements, then a signed command (offset 2) the event denies, then chat *)
 Definition w1 : list op := [Ack 3; Cmd 1 2 true ODenied; Chat 2 0 false].
 (* C21-2: three held acknowledgements, then a command (offset 2) the event rewrites *)
 Definition w2 : list op := [Ack 3; Cmd 1 2 false ORewrite].
 
 Lemma refuted_1 :
-  out (impl_run cfg_off w1) = [PChat 2 0] /\ delayed (impl_run cfg_off w1) = 0 /\ disc (impl_run cfg_off w1) = false /\
-  A w1 = 5 /\ F (out (impl_run cfg_off w1)) = 0 /\ lost1 (impl_run cfg_off w1) = 5 /\
-  holds_C21 w1 (out (impl_run cfg_off w1)) (delayed (impl_run cfg_off w1)) false = false.
+  out (prefix_run cfg_off w1) = [PChat 2 0] /\ delayed (prefix_run cfg_off w1) = 0 /\ disc (prefix_run cfg_off w1) = false /\
+  A w1 = 5 /\ F (out (prefix_run cfg_off w1)) = 0 /\ lost1 (prefix_run cfg_off w1) = 5 /\
+  holds_C21 w1 (out (prefix_run cfg_off w1)) (delayed (prefix_run cfg_off w1)) false = false.
 Proof. vm_compute. repeat split; reflexivity. Qed.
 
 Lemma refuted_2 :
